@@ -80,23 +80,24 @@ def exprC (sc : Scalar) (e : Expr) : Sexp :=
   let text := render ps
   let lexed := lexC text
   let (ok, _, _) := roundtripExprC sc e
-  .list [.atom "res", S text, B (lexed == toks ps), B ok, B (wfC sc e), kindSexp (kindOf e), B true]
+  .list [.atom "res", S text, B (lexed == toks ps), B ok, B (wfC sc e), kindSexp (kindOf e), B (raisesC sc e)]
 
 def exprPy (e : Expr) : Sexp :=
   let ps := piecesPy e
   let text := render ps
   let lexed := lexPyExpr text
   let (ok, _, _) := roundtripExprPy e
-  .list [.atom "res", S text, B (lexed == toks ps), B ok, B (wfC .f64 e), kindSexp (kindOf e), B (exprRaisesPy e)]
+  .list [.atom "res", S text, B (lexed == toks ps), B ok, B (wfC .f64 e), kindSexp (kindOf e), B (exprRaisesPy e),
+    B (wfPy e)]
 
 def stmtC (sc : Scalar) (s : Stmt) : Sexp :=
-  match fmtStmtC sc s with
+  match formatStmtC sc s with
   | none => .list [.atom "raise"]
   | some text =>
     let lexed := lexC text
     let want := tokStmtC sc s
     let parsed := parseStmtsTopC lexed
-    .list [.atom "res", S text, B (lexed == want), B (parsed == some (eraseStmtC sc s))]
+    .list [.atom "res", S text, B (lexed == want), B (parsed == some (eraseStmtC sc s)), B (wfS sc s)]
 
 def stmtPy (sc : Scalar) (s : Stmt) : Sexp :=
   match fmtStmtPy sc s with
@@ -105,7 +106,7 @@ def stmtPy (sc : Scalar) (s : Stmt) : Sexp :=
     let lexed := lexPy text
     let want := tokStmtPy sc s
     let parsed := lexed.bind parseStmtsTopPy
-    .list [.atom "res", S text, B (lexed == some want), B (parsed == some (eraseStmtPy sc s))]
+    .list [.atom "res", S text, B (lexed == some want), B (parsed == some (eraseStmtPy sc s)), B (wfSPy sc s)]
 
 def dispatch (req : Sexp) : Except String Sexp :=
   match req with
@@ -116,8 +117,8 @@ def dispatch (req : Sexp) : Except String Sexp :=
       let sc ← scalarOf dt
       match x with
       | .list (.atom h :: _) =>
-        if isStmtHead h then return optText (fmtStmtC sc (← readStmt x))
-        else return optText (some (fmtExprC sc (← readExpr x)))
+        if isStmtHead h then return optText (formatStmtC sc (← readStmt x))
+        else return optText (formatExprC sc (← readExpr x))
       | _ => throw "bad tree"
     | "fmtPy", [dt, x] => do
       let sc ← scalarOf dt
